@@ -39,9 +39,15 @@ def canon(x: Any) -> str:
 
 
 def load_known() -> Dict[str, Any]:
-    if not KNOWN.exists():
-        return {"findings": [], "fixed": []}
-    return json.loads(KNOWN.read_text())
+    """known_findings.json (read-only). VERIF_KNOWN_EXTRA may name an additional file that is merged in
+    (used only while developing a check, never by the registered commands)."""
+    kf = {"findings": [], "fixed": []}
+    if KNOWN.exists():
+        kf = json.loads(KNOWN.read_text())
+    extra = os.environ.get("VERIF_KNOWN_EXTRA")
+    if extra and Path(extra).exists():
+        kf["findings"] = kf.get("findings", []) + json.loads(Path(extra).read_text()).get("findings", [])
+    return kf
 
 
 class Run:
